@@ -52,7 +52,7 @@ def _cases(tier):
         for op in OPS:
             if op in ("<=", ">=") and sh not in ORDERABLE:
                 continue
-            for n in range(1, _L(tier) + (2 if op == "in" else 1)):
+            for n in range(1, _L(tier) + (2 if op in ("in", "<=", ">=") else 1)):
                 for seq in itertools.product(alpha, repeat=n):
                     if "C" not in seq:
                         continue
@@ -63,6 +63,9 @@ def _cases(tier):
     for op in OPS:
         for kind in ("ident", "badcopy"):
             cases.append({"nocopy": kind, "op": op})
+    for kind in ("ident", "badcopy"):
+        for ex in EXISTING:
+            cases.append({"nocopy": kind, "op": "==", "existing": ex})
     return cases
 
 
@@ -83,7 +86,16 @@ NOCOPY = (
 )
 
 
+# value template (X = the non-copyable object) and the previous snapshot argument: the object arrives as an *inserted* part
+EXISTING = [("[1, X]", "[1]"), ("[X, 1]", "[1]"), ("{'a': 1, 'b': X}", "{'a': 1}"), ("DC(x=1, z=[X])", "DC(x=1)"), ("(1, X)", "(1,)"),
+            ("[1, [X]]", "[1]"), ("{'a': [X]}", "{'a': []}"), ("NT(a=1, b=X)", "NT(a=1, b=2)")]
+
+
 def _site(i, c):
+    if "existing" in c:
+        init = "Ident()" if c["nocopy"] == "ident" else "BadCopy(1)"
+        val, prev = c["existing"]
+        return "def test_%d():\n    v = %s\n    s = snapshot(%s)\n    assert v == s\n" % (i, val.replace("X", init), prev)
     if "nocopy" in c:
         init = "Ident()" if c["nocopy"] == "ident" else "BadCopy(1)"
         return "def test_%d():\n    v = %s\n    s = snapshot()\n    %s\n" % (i, init, _cmp(c["op"]))
@@ -222,6 +234,14 @@ def _judge(cases):
     for i, c in enumerate(cases):
         if "nocopy" in c:
             # a sub-snapshot may be created as the empty mapping (the key was requested, its value was rejected)
+            if "existing" in c:
+                if calls[i]["arg_text"].strip() != before_calls[i]["arg_text"].strip():
+                    out.append(("non-copyable-value-recorded", "snapshot(%s) -> snapshot(%s)" % (before_calls[i]["arg_text"], calls[i]["arg_text"][:100])))
+                elif "UsageError" not in raised:
+                    out.append(("no-usage-error-for-non-copyable-value", raised[:200]))
+                else:
+                    out.append(None)
+                continue
             if calls[i]["arg_text"].strip() not in (("", "{}") if c["op"] == "[k]" else ("",)):
                 out.append(("non-copyable-value-recorded", "wrote snapshot(%s)" % calls[i]["arg_text"][:100]))
             elif "UsageError" not in raised:
